@@ -76,9 +76,21 @@ func (s *ObjStore) begin(kind, key string, size int) (ObjOp, error) {
 }
 
 func (s *ObjStore) Put(kind, key string, body []byte) error {
+	return s.PutIf(kind, key, body, nil)
+}
+
+// PutIf is Put with a liveness probe evaluated after the gate and before the effect: when
+// alive returns an error (typically ctx.Err() of the caller) the call fails with that
+// error and has no effect, as a real S3 client does when its context is cancelled.
+func (s *ObjStore) PutIf(kind, key string, body []byte, alive func() error) error {
 	op, err := s.begin(kind, key, len(body))
 	if err != nil {
 		return err
+	}
+	if alive != nil {
+		if aerr := alive(); aerr != nil {
+			return aerr
+		}
 	}
 	if op.Fault == FaultBefore {
 		return fmt.Errorf("%w: %s %s", ErrInjected, kind, key)
